@@ -26,7 +26,10 @@ def MASKS := ["022", "027", "077"]
 def FILES := ["f1", "f2"]
 def FDS := ["3", "4", "5"]
 
-def parseCond (s : String) : Option Nat := (trackedConds.find? (·.1 == s)).map (·.2)
+/-- conditions the `trap` / `raise` ops range over (TSTP/TTIN/TTOU are only watched) -/
+def opConds : List String := ["EXIT", "INT", "QUIT", "TERM", "URG", "USR1"]
+def parseCond (s : String) : Option Nat :=
+  if opConds.contains s then (trackedConds.find? (·.1 == s)).map (·.2) else none
 
 def parseTrapAct (s : String) : Option TrapAct :=
   match s.toList with
@@ -62,6 +65,8 @@ def parseOp (t : String) : Option Op :=
   | ["raise", s] => do
     let c ← parseCond s
     if c = 0 then none else pure (.raise c)
+  | ["bg"] => some .bg
+  | ["exit", n] => do guardIn n ["0", "3", "7"]; pure (.exit (← n.toNat?))
   | _ => none
 
 def parseKind : String → Option Kind
@@ -76,7 +81,16 @@ def parseKind : String → Option Kind
 def isSilent : Op → Bool
   | .raise _ => false
   | .local _ _ => false
+  | .exit _ => false
   | _ => true
+
+def isExit : Op → Bool
+  | .exit _ => true
+  | _ => false
+
+def setMid (mid : List (List Op)) (i : Nat) (op : Op) : List (List Op) :=
+  let m := mid ++ List.replicate (2 - mid.length) []
+  m.mapIdx fun k ops => if k = i then ops ++ [op] else ops
 
 def parseItems : List String → Case → Option Case
   | [], c => some c
@@ -86,23 +100,41 @@ def parseItems : List String → Case → Option Case
       let body := body.trimAscii.toString
       match tag with
       | "F" => if body == "1" then parseItems rest c else none
+      | "T" => if body == "1" then parseItems rest { c with tty := true } else none
+      | "I" => if body == "1" then parseItems rest { c with internal := true } else none
+      | "Q" => if body == "1" then parseItems rest { c with quiet := true } else none
+      | "G" => do
+        let s ← match words body with
+          | [w] => parseCond w
+          | _ => none
+        if s = 0 then none else parseItems rest { c with ignored := some s }
       | "K" => do
         let k ← match words body with
           | [w] => parseKind w
           | _ => none
         parseItems rest { c with kinds := c.kinds ++ [k] }
-      | "P" => do parseItems rest { c with pro := c.pro ++ [← parseOp body] }
+      | "P" => do
+        let op ← parseOp body
+        if isExit op then none else parseItems rest { c with pro := c.pro ++ [op] }
+      | "M" => do
+        let op ← parseOp body
+        if isSilent op then parseItems rest { c with mid := setMid c.mid 0 op } else none
+      | "N" => do
+        let op ← parseOp body
+        if isSilent op then parseItems rest { c with mid := setMid c.mid 1 op } else none
       | "C" => do parseItems rest { c with child := c.child ++ [← parseOp body] }
       | "W" => do
         let op ← parseOp body
-        if isSilent op then parseItems rest { c with during := c.during ++ [op] } else none
+        if isSilent op ∧ op ≠ .bg then parseItems rest { c with during := c.during ++ [op] } else none
       | _ => none
     | _ => none
 
 def parseCase (line : String) : Option Case := do
   let c ← parseItems ((splitTrim line ";").filter (· ≠ "")) { pro := [], kinds := [], child := [], during := [] }
-  if c.kinds.isEmpty ∨ c.kinds.length > 2 then none
+  if c.kinds.isEmpty ∨ c.kinds.length > 3 then none
   else if ¬ c.during.isEmpty ∧ c.kinds.head? ≠ some .async then none
+  else if ¬ (c.mid.headD []).isEmpty ∧ c.kinds.length < 2 then none
+  else if ¬ ((c.mid.drop 1).headD []).isEmpty ∧ c.kinds.length < 3 then none
   else some c
 
 def runLine (line : String) : String :=
